@@ -135,6 +135,9 @@ func main() {
 			if cp == 2 || cp == 8 || cp == 64 || (a.Tier == "thorough" && cp <= 128) {
 				groups[cp] = append(groups[cp], genScenarioKind(r.Fork(), cp, per, -3, fmt.Sprintf("c5-%d-crowd", cp)))
 			}
+			if cp == 2 { // the smallest queue twice
+				groups[cp] = append(groups[cp], genScenarioKind(r.Fork(), cp, per+1, -3, fmt.Sprintf("c5-%d-crowd2", cp)))
+			}
 		}
 		// relays configured with an out-of-range BufferSize: the documented fallback is 256
 		for j, conf := range []int{0, -5, 513, 100000} {
